@@ -400,6 +400,10 @@ class Check:
         self.violations.append((cls, path))
 
     def finish(self, rule="", explanation="", exhaustive=False):
+        if not rule:
+            rule = ("cases = the behaviours TLC prints from the bounded specification (one per distinct reachable state / case of the universe), every one replayed "
+                    "into the library and validated; a behaviour counts once (TLC's state fingerprints make them distinct) and is non-trivial by construction (>= 1 call "
+                    "into the library with >= 1 judged observation)")
         os.makedirs(EVID, exist_ok=True)
         known = {(k["property"], k["class"]): k for k in load_known()}
         for cls, n in sorted(self.known_hits.items()):
